@@ -15,7 +15,7 @@ from harness.props.c09 import H, U, rand_rot
 
 ID = "C02"
 IMPORTS = "From Evo Require Import Num Linalg Lie Metrics.\n"
-COQ_TARGETS = ["theories/MetricsProofs.vo", "generated/StepsC02.vo"]
+COQ_TARGETS = ["theories/MetricsProofs.vo", "theories/RpeSelect.vo", "generated/StepsC02.vo"]
 TRUSTED = ["model Evo.Metrics (rpe) written by hand from RPE.process_data; tie = differential run in binary64",
            "pair selection (id_pairs_from_delta) enters the model as a list computed by evo's own selector on the trajectory "
            "the statement names (estimate, or reference with pairs_from_reference); the selector itself is property C10",
